@@ -221,6 +221,19 @@ CHECKS["C13"] = dict(
          "clean failure satisfies the property; only the vacuity guard notices a change that makes every reconstruction fail. Tolerances are fixed per case.",
     technique="TLA+ protocol spec (InitProtocol) model-checked by TLC + TLC validation (InitTrace, spec/Mesh predicates) of hooked real initialisation runs")
 
+CHECKS["C14"] = dict(
+    category="model_checking", design_ref="DESIGN.md §C14",
+    text="Design: the absolute-coordinate code paths are specified on the lattice and TLC re-checks there that their discrete outputs do not depend on the position: "
+         "spatial grids (Grid: every box position incl. negative and straddling the origin, three epsilon regimes), broad phase (BroadPhase: every arrangement on -4..5), "
+         "closest-point kernel (ClosestPoint.TransInv and RotInv). Implementation: pairs of real solver runs (reference / translated input: 1e-7, fractions of a voxel, "
+         "dyadic, across the origin, 1000 cell sizes; thorough: 20 vectors) on a single growing cell, two adhering cells (live couplings), overlapping cells of different "
+         "types and a cell against an ECM; the two phase-boundary traces (hook H4) are consumed in lock-step by TLC (PairTrace): every discrete observable identical "
+         "at every phase boundary (ids, list positions, node/face counts, connectivity digest, couplings, file numbers, verdicts); final positions up to the translation, "
+         "volumes and pressures within a tolerance that grows with |translation|/size.",
+    note="One thread, 25 (quick) / 60 (thorough) iterations; tolerances grow with the translation (far-origin cancellation in the volume formula is a floating-point "
+         "effect the specification cannot predict); scenarios avoid threshold ties (l_min not commensurable with the symmetric test shapes).",
+    technique="TLC on the lattice specs of the absolute-coordinate code paths + TLC lock-step trace validation (PairTrace) of pairs of hooked real solver runs")
+
 PENDING = {}   # property id -> reason (filled below for everything not in CHECKS)
 NOT_APPLICABLE = {
  "C10": "memory safety / undefined behaviour has no representation in a TLA+ state (no addresses, lifetimes or indeterminate values); "
